@@ -10,8 +10,14 @@ from selftest.mutate import run_variant
 from selftest.variants import V
 
 
-def run(props=None, verbose=False, tier="quick", quiet=False):
+def run(props=None, verbose=False, tier="quick", quiet=False, with_global=False):
     vs = [v for v in V if not props or v["prop"] in props]
+    if with_global and props:
+        # the maintenance-style global twins, against these properties' checks: never VIOLATED
+        from selftest.variants import G
+        for g in G:
+            for p in sorted(props):
+                vs.append({"prop": p, "name": "global twin: " + g["name"], "edits": g["edits"], "expect": "silent" if g["strict"] else "not-violated"})
     with ThreadPoolExecutor(16) as ex:
         res = list(ex.map(lambda v: run_variant(v, tier), vs))
     bad = 0
